@@ -161,6 +161,22 @@ class VSocket:
         del p.buf[:k]
         return out
 
+    def recv_into(self, buffer, nbytes: int = 0, flags: int = 0) -> int:
+        mv = memoryview(buffer)
+        n = nbytes or len(mv)
+        data = self.recv(min(n, len(mv)))
+        mv[: len(data)] = data
+        return len(data)
+
+    def send(self, data) -> int:
+        """may transmit only a part (environment choice when sendall_splits is on)"""
+        data = bytes(data)
+        n = len(data)
+        if n > 1 and self.w.opts.get("sendall_splits") and self.w.env_choice(2, "partial-send:" + self.name) == 1:
+            n = max(1, n // 2)
+        self._send_piece(data[:n])
+        return n
+
     def _send_piece(self, data: bytes) -> None:
         p = self.tx
         w = self.w
